@@ -8,6 +8,15 @@ Bind:   (a) every history TLC enumerates (K = 1, 2, 3; length <= 5/6) is replaye
             files must be what the model says;
         (b) typed tables (boundary catalogue + hypothesis) go through a real first run and a resumed run; every cell is
             given to TLC as (value in, bytes written, value out): out = in, bytes = Encode(in), out = Decode(bytes).
+        (c) spec/FlowChain.tla: pipelines as bracketed token sequences (steps, checkpoints, nested Flows), the IDEAL
+            resumption (nothing before the last existing checkpoint runs) next to the link absorption the code implements
+            (a checkpoint absorbs only the links of ITS OWN Flow).  TLC: ResultSame, ContentOK, RowsAsIdeal, LastWritten,
+            DeleteRecomputes, FlatMeetsIdeal hold; ResumeSkipsUpstream is refuted on nested pipelines and TLC shows the
+            deviation is exactly "package phase of an un-absorbed outer predecessor runs" (DeviationIsPkgOnly,
+            ResumeSkipsUpstreamUnlessOuter).  Every exported (pipeline, history) is built for real (Flow objects nested as
+            the brackets say, package-function steps with package-phase and row counters) and run: per run the result, the
+            executed steps and the checkpoint files must be the ideal's; a difference is the listed finding only if its
+            trigger holds and the real run equals the IMPL prediction.
 """
 import contextlib
 import datetime
@@ -23,6 +32,7 @@ from ..common import Report, pmap, harness_errors, rng, setup_repo, canon, seed
 
 PROP = 'C07'
 KF_MICRO = 'C07-subsecond-precision-lost'
+KF_NESTED = 'C07-checkpoint-in-nested-flow-runs-outer-upstream'
 
 
 def model(rep, t):
@@ -101,6 +111,127 @@ def replay_history(case):
         return dict(ok=True)
     except Exception as e:
         return dict(ok=False, why='raised %s: %s' % (type(e).__name__, str(e)[:200]))
+    finally:
+        shutil.rmtree(root, ignore_errors=True)
+
+
+# ---------------------------------------------------------------------------
+# (c) nested Flows: FlowChain.tla
+
+def model_nested(rep, t):
+    wd = tlc.workdir('c07n')
+    consts = {'MaxTok': 6, 'MaxDepth': 2, 'MaxHist': 3} if t == 'quick' else {'MaxTok': 7, 'MaxDepth': 2, 'MaxHist': 4}
+    invs = ['ResultSame', 'ContentOK', 'RowsAsIdeal', 'ResumeSkipsUpstreamUnlessOuter', 'DeviationIsPkgOnly', 'LastWritten', 'DeleteRecomputes', 'FlatMeetsIdeal']
+    cfg = tlc.write_cfg(os.path.join(wd, 'fc.cfg'), constants=consts, invariants=invs, constraints=['Export'])
+    res = tlc.run_tlc('FlowChain', cfg, workers=1, allow_violation=False, timeout=3000)
+    rep.add_tlc(res, 'FlowChain: all bracketed pipelines of <= %(MaxTok)s tokens (depth <= %(MaxDepth)s) x histories of <= %(MaxHist)s runs/deletions' % consts)
+    cfg = tlc.write_cfg(os.path.join(wd, 'fc2.cfg'), constants=consts, invariants=['ResumeSkipsUpstream'])
+    r2 = tlc.run_tlc('FlowChain', cfg)
+    if r2.violated != 'ResumeSkipsUpstream':
+        raise tlc.MachineryError('non-vacuity: FlowChain must refute ResumeSkipsUpstream for the implemented absorption on nested pipelines')
+    rep.notes['design_level_finding_nested'] = 'TLC refutes ResumeSkipsUpstream for the implemented link absorption on nested pipelines (e.g. s ( c ))'
+    return res.cases
+
+
+def build_pipeline(tokens, root, pk, rw):
+    """the bracketed token sequence as real objects: Flow(...) nested as written, checkpoint('cp<pos>'), package-function steps"""
+    from dataflows import Flow, checkpoint
+
+    def mk_step(pos):
+        def step(package):
+            pk[pos] = pk.get(pos, 0) + 1
+            first = not package.pkg.descriptor.get('resources')
+            if first:
+                package.pkg.add_resource({'name': 'r', 'path': 'r.csv', 'profile': 'tabular-data-resource',
+                                          'schema': {'fields': [{'name': 't', 'type': 'string'}]}})
+            yield package.pkg
+
+            def source():
+                for i in range(2):
+                    rw[pos] = rw.get(pos, 0) + 1
+                    yield {'t': 's%d' % pos}
+
+            def edit(rows):
+                for row in rows:
+                    rw[pos] = rw.get(pos, 0) + 1
+                    yield dict(row, t=row['t'] + ',%d' % pos)
+            for rows in package:
+                yield edit(rows)
+            if first:
+                yield source()
+        step.__name__ = 'step%d' % pos
+        return step
+
+    def parse(i):
+        links = []
+        while i < len(tokens) and tokens[i] != ')':
+            tk = tokens[i]
+            if tk == 's':
+                links.append(mk_step(i + 1))
+                i += 1
+            elif tk == 'c':
+                links.append(checkpoint('cp%d' % (i + 1), checkpoint_path=root))
+                i += 1
+            else:
+                sub, j = parse(i + 1)
+                links.append(Flow(*sub))
+                i = j + 1
+        return links, i
+    links, _ = parse(0)
+    return Flow(*links)
+
+
+def replay_nested(case):
+    setup_repo()
+    tokens, hist = case['tree'], case['hist']
+    cps_ = [i + 1 for i, tk in enumerate(tokens) if tk == 'c']
+    steps_ = [i + 1 for i, tk in enumerate(tokens) if tk == 's']
+    root = tempfile.mkdtemp(prefix='c07n-', dir=tlc.WORK_ROOT)
+    kf = []
+    drift = []
+    try:
+        ri = 0
+        first = None
+        for h in hist:
+            if h[0] == 'del':
+                shutil.rmtree(os.path.join(root, 'cp%d' % h[1]))
+                continue
+            m = case['runs'][ri]
+            pk, rw = {}, {}
+            buf = io.StringIO()
+            try:
+                with contextlib.redirect_stdout(buf):
+                    res, dp, _ = build_pipeline(tokens, root, pk, rw).results()
+            except Exception as e:
+                return dict(ok=False, why='run %d raised %s: %s' % (ri + 1, type(e).__name__, str(getattr(e, 'cause', e))[:160]))
+            result = canon(dict(rows=res, names=[r['name'] for r in dp.descriptor['resources']]))
+            want_t = 's%d' % m['result'][0] + ''.join(',%d' % x for x in m['result'][1:])
+            if first is None:
+                first = result
+                if res != [[{'t': want_t}, {'t': want_t}]]:
+                    return dict(ok=False, why='the first run does not apply every step once in pipeline order', got=res, want=want_t)
+            if result != first:
+                return dict(ok=False, why='run %d returned a different result than the first run' % (ri + 1), got=res)
+            real = {p: ('none' if not pk.get(p) else 'full' if rw.get(p) else 'pkg') for p in steps_}
+            ideal = {p: m['ideal'][p - 1] for p in steps_}
+            impl = {p: m['impl'][p - 1] for p in steps_}
+            if real != ideal:
+                if m['outer'] and real == impl:
+                    kf.append(dict(run=ri + 1, real=real, ideal=ideal))
+                else:
+                    return dict(ok=False, why='run %d executed %s; no step before the resume point (checkpoint at %d) may run: %s' % (ri + 1, real, m['from'], ideal),
+                                impl=impl)
+            elif real != impl:
+                drift.append(dict(run=ri + 1, real=real, impl=impl))
+            out = buf.getvalue()
+            saved = sorted(k for k in cps_ if ('checkpoint saved: cp%d\n' % k) in out)
+            if saved != sorted(m['written']):
+                return dict(ok=False, why='run %d published checkpoints %s, the model says %s' % (ri + 1, saved, sorted(m['written'])))
+            ri += 1
+        exists = sorted(k for k in cps_ if os.path.exists(os.path.join(root, 'cp%d' % k, 'stream.ndjson')))
+        if exists != sorted(case['exists']):
+            return dict(ok=False, why='checkpoint files after the history: %s, model: %s' % (exists, sorted(case['exists'])))
+        return dict(ok=True, kf=kf, drift=drift)
     finally:
         shutil.rmtree(root, ignore_errors=True)
 
@@ -324,6 +455,30 @@ def run():
         if not out['ok']:
             rep.violation(c, dict(history=c['hist'], k=c['k'], why=out['why']), category='history/K%d' % c['k'])
     rep.sample(dict(history=[c for c in cases if len(c['hist']) >= 4][0]))
+    # nested Flows
+    ncases = model_nested(rep, t)
+    if t == 'quick':
+        nested = [c for c in ncases if '(' in c['tree']]
+        flat = [c for c in ncases if '(' not in c['tree']]
+        r.shuffle(nested)
+        r.shuffle(flat)
+        ncases = nested[:1500] + flat[:200]
+    nres = pmap(replay_nested, ncases, chunksize=8)
+    errs = harness_errors(nres)
+    if errs:
+        raise tlc.MachineryError('harness error in nested-pipeline replay: ' + errs[0])
+    for c, out in zip(ncases, nres):
+        rep.count(1, traces=1)
+        rep.mark_distinct(dict(t=c['tree'], h=c['hist']))
+        if not out['ok']:
+            rep.violation(c, dict(pipeline=' '.join(c['tree']), history=c['hist'], **{k: v for k, v in out.items() if k != 'ok'}), category='nested/%s' % out['why'][:40])
+            continue
+        for k in out['kf']:
+            rep.known(KF_NESTED, 'steps of an enclosing Flow before a nested Flow holding the checkpoint still run their package phase on resume',
+                      dict(pipeline=' '.join(c['tree']), history=c['hist'], **k))
+        for d in out['drift']:
+            rep.model_drift('FlowChain: the real run skipped more than the implemented absorption predicts (pipeline %s)' % ' '.join(c['tree']), dict(case=c, **d))
+    rep.sample(dict(nested_pipeline=next((c for c in ncases if '(' in c['tree'] and len(c['hist']) >= 3), ncases[0])))
     # values
     tables = [dict(rows=catalogue_rows())]
     for i in range(8 if t == 'quick' else 150):
@@ -361,7 +516,11 @@ def replay(path):
     setup_repo()
     rec = json.load(open(path))
     c = rec['case']
-    if 'hist' in c:
+    if 'tree' in c:
+        out = replay_nested(c)
+        print(out)
+        bad = not out['ok']
+    elif 'hist' in c:
         out = replay_history(c)
         print(out)
         bad = not out['ok']
